@@ -27,6 +27,7 @@ import (
 	"unicode/utf8"
 
 	"github.com/jcmoraisjr/haproxy-ingress/pkg/converters/ingress/annotations"
+	convtypes "github.com/jcmoraisjr/haproxy-ingress/pkg/converters/types"
 	hatypes "github.com/jcmoraisjr/haproxy-ingress/pkg/haproxy/types"
 
 	"verif/harness/lib/c1819"
@@ -63,6 +64,17 @@ func (b *B) UnmarshalJSON(data []byte) error {
 type add struct {
 	Path  int `json:"path"`
 	Value B   `json:"value"`
+	// Src is the resource the annotation comes from, "<Type>/<name>" in namespace default
+	// ("" = Ingress/app): an Ingress and a Service may carry the same namespace/name
+	Src string `json:"src,omitempty"`
+}
+
+func (a add) source() *annotations.Source {
+	typ, name := "Ingress", "app"
+	if f := strings.SplitN(a.Src, "/", 2); len(f) == 2 {
+		typ, name = f[0], f[1]
+	}
+	return &annotations.Source{Namespace: "default", Name: name, Type: convtypes.ResourceType(typ)}
 }
 
 type svcObj struct {
@@ -79,16 +91,20 @@ type ingObj struct {
 }
 
 type input struct {
-	Kind     string       `json:"kind"` // updater | pipeline
-	Keywords []B          `json:"keywords"`
-	Adds     []add        `json:"adds,omitempty"`
-	Default  *B           `json:"default,omitempty"`     // config-backend in the global ConfigMap
-	TCPAdds  []add        `json:"tcp_adds,omitempty"`    // config-tcp-service annotations (updater)
-	TCPDflt  *B           `json:"tcp_default,omitempty"` // config-tcp-service in the global ConfigMap
-	Global   map[string]B `json:"global,omitempty"`      // global-scope snippet keys
-	Written  bool         `json:"written,omitempty"`     // updater: also write the files and read the snippet block back
-	Services []svcObj     `json:"services,omitempty"`
-	Ingress  []ingObj     `json:"ingresses,omitempty"`
+	Kind     string `json:"kind"` // updater | pipeline
+	Keywords []B    `json:"keywords"`
+	Adds     []add  `json:"adds,omitempty"`
+	Default  *B     `json:"default,omitempty"` // config-backend in the global ConfigMap
+	// More: further backends configured by the SAME updater in the same reconciliation,
+	// before (negative order) or after the first one; each is a list of annotations
+	More      [][]add      `json:"more_backends,omitempty"`
+	MoreFirst bool         `json:"more_first,omitempty"`  // the further backends are processed first
+	TCPAdds   []add        `json:"tcp_adds,omitempty"`    // config-tcp-service annotations (updater)
+	TCPDflt   *B           `json:"tcp_default,omitempty"` // config-tcp-service in the global ConfigMap
+	Global    map[string]B `json:"global,omitempty"`      // global-scope snippet keys
+	Written   bool         `json:"written,omitempty"`     // updater: also write the files and read the snippet block back
+	Services  []svcObj     `json:"services,omitempty"`
+	Ingress   []ingObj     `json:"ingresses,omitempty"`
 }
 
 const cfgBackend = "config-backend"
@@ -295,6 +311,24 @@ func genUpdater(rng *rand.Rand) input {
 			hint = append(hint, hintLines(string(v))...)
 		}
 	}
+	// several resources in one reconciliation: an Ingress and a Service of the same
+	// namespace/name (and of other names), each with a snippet of its own, on several backends
+	if rng.Intn(3) == 0 {
+		srcs := []string{"Ingress/app", "Service/app", "Service/app", "Ingress/web", "Service/web"}
+		for i := range in.Adds {
+			in.Adds[i].Src = pick(rng, srcs)
+		}
+		for b := 0; b < 1+rng.Intn(2); b++ {
+			var adds []add
+			for i := 0; i < 1+rng.Intn(2); i++ {
+				v := genValue(rng)
+				adds = append(adds, add{Path: rng.Intn(3), Value: v, Src: pick(rng, srcs)})
+				hint = append(hint, hintLines(string(v))...)
+			}
+			in.More = append(in.More, adds)
+		}
+		in.MoreFirst = rng.Intn(2) == 0
+	}
 	in.Keywords = genKeywords(rng, hint)
 	in.Written = len(in.Adds) > 0 && rng.Intn(2) == 0
 	return in
@@ -399,8 +433,8 @@ func corpus() []input {
 		// keyword as a prefix / other case: not the keyword
 		{Kind: "updater", Keywords: k("server", "http"), Adds: ing(" servers x\n Server y\n http-request deny")},
 		// merge: the first registered annotation wins
-		{Kind: "updater", Keywords: k("server"), Adds: []add{{0, " acl a path /"}, {1, " server s 1.1.1.1:80"}, {0, "x"}}, Default: bp("mode tcp")},
-		{Kind: "updater", Keywords: k("acl"), Adds: []add{{0, ""}, {1, " server s 1.1.1.1:80"}}},
+		{Kind: "updater", Keywords: k("server"), Adds: []add{{Path: 0, Value: " acl a path /"}, {Path: 1, Value: " server s 1.1.1.1:80"}, {Path: 0, Value: "x"}}, Default: bp("mode tcp")},
+		{Kind: "updater", Keywords: k("acl"), Adds: []add{{Path: 0, Value: ""}, {Path: 1, Value: " server s 1.1.1.1:80"}}},
 		// global-scope keys with `*`
 		{Kind: "updater", Keywords: k("*", "tune.bufsize"), Global: map[string]B{"config-global": "tune.bufsize 32768\n", "config-frontend": " acl x path /", "config-frontend-late": ""}},
 		// config-tcp-service: annotation filtered (fix C19-tcp-service-snippet-filter), global default not
@@ -412,6 +446,12 @@ func corpus() []input {
 			Services: []svcObj{{Name: "svc1"}},
 			Ingress:  []ingObj{{Name: "ing1", Snippet: bp("\u00a0server evil 10.0.0.1:8080 #A1_0\n \u3000server evil2 10.0.0.2:8080 #A1_1"), Rules: []c1819.Rule{{Host: "h1.local", Path: "/", Service: "svc1", Port: 8080}}}}},
 		{Kind: "updater", Keywords: k("server"), Adds: ing("\u0085server evil 10.0.0.1:8080\n\t\u00a0 server x")},
+		// an Ingress and a Service called default/app in one reconciliation, each with its own
+		// snippet: each is judged on its own, whichever comes first
+		{Kind: "updater", Keywords: k("server"), Adds: []add{{Path: 0, Value: "  acl ok path /", Src: "Ingress/app"}},
+			More: [][]add{{{Path: 0, Value: "\tserver injected 10.0.0.9:80", Src: "Service/app"}}}},
+		{Kind: "updater", Keywords: k("server"), Adds: []add{{Path: 0, Value: "\tserver injected 10.0.0.9:80", Src: "Service/app"}},
+			More: [][]add{{{Path: 0, Value: "  acl ok path /", Src: "Ingress/app"}}}, MoreFirst: true},
 		// a lone CR inside a line: a blank for the filter, and the end of the statement for HAProxy;
 		// the written file must keep the line in one piece
 		{Kind: "updater", Keywords: k("use-server"), Adds: ing("  acl is_root path /\ruse-server srv001 if is_root\n  http-request deny if is_root\r"), Written: true},
@@ -438,6 +478,7 @@ type globalObs struct {
 type observed struct {
 	Custom   []string   `json:"custom_config"`
 	TCP      []string   `json:"tcp_custom_config,omitempty"`
+	More     [][]string `json:"more_custom_config,omitempty"`
 	Written  *string    `json:"written_block,omitempty"` // bytes of the snippet block in haproxy.cfg
 	Global   *globalObs `json:"global,omitempty"`
 	GlobalNo *globalObs `json:"-"` // same run without keywords
@@ -496,7 +537,27 @@ func runUpdater(in input, scratch string) observed {
 		for _, a := range in.Adds {
 			link := hatypes.CreateHostPathLink("h.local", fmt.Sprintf("/p%d", a.Path), hatypes.MatchBegin)
 			backend.AddBackendPath(link)
-			mapper.AddAnnotations(src, link, map[string]string{cfgBackend: string(a.Value)})
+			mapper.AddAnnotations(a.source(), link, map[string]string{cfgBackend: string(a.Value)})
+		}
+		// the further backends of the reconciliation, through the same updater
+		runMore := func() {
+			for i, adds := range in.More {
+				mb := p.Instance.Config().Backends().AcquireBackend("default", fmt.Sprintf("more%d", i), "8080")
+				mm := annotations.NewMapBuilder(p.Log, dflt).NewMapper()
+				for _, a := range adds {
+					link := hatypes.CreateHostPathLink(fmt.Sprintf("m%d.local", i), fmt.Sprintf("/p%d", a.Path), hatypes.MatchBegin)
+					mb.AddBackendPath(link)
+					mm.AddAnnotations(a.source(), link, map[string]string{cfgBackend: string(a.Value)})
+				}
+				if len(adds) == 0 {
+					mb.AddBackendPath(hatypes.CreateHostPathLink(fmt.Sprintf("m%d.local", i), "/", hatypes.MatchBegin))
+				}
+				upd.UpdateBackendConfig(mb, mm)
+				obs.More = append(obs.More, mb.CustomConfig)
+			}
+		}
+		if in.MoreFirst {
+			runMore()
 		}
 		if len(in.Adds) == 0 {
 			backend.AddBackendPath(hatypes.CreateHostPathLink("h.local", "/", hatypes.MatchBegin))
@@ -506,6 +567,9 @@ func runUpdater(in input, scratch string) observed {
 		p.Log.Msgs = nil
 		upd.UpdateBackendConfig(backend, mapper)
 		obs.Custom = backend.CustomConfig
+		if !in.MoreFirst {
+			runMore()
+		}
 		if in.Written {
 			cfg, err := p.Write()
 			if err != nil {
@@ -707,6 +771,11 @@ func oracle(in input, obs observed) []fail {
 			}
 		}
 		check("backend", in.Adds, obs.Custom)
+		for i, adds := range in.More {
+			if i < len(obs.More) {
+				check("backend", adds, obs.More[i])
+			}
+		}
 		if obs.Written != nil && len(in.Adds) > 0 {
 			// the WRITTEN bytes, cut in lines as HAProxy reads them (LF ends a line)
 			for _, l := range strings.Split(*obs.Written, "\n") {
@@ -852,12 +921,24 @@ func coqCase(id int, in input, obs observed) string {
 	if in.TCPDflt != nil {
 		tdflt = "(Some " + hx.Str(string(*in.TCPDflt)) + ")"
 	}
+	var more []string
+	for i, madds := range in.More {
+		var as []string
+		for _, a := range madds {
+			as = append(as, hx.Tuple(hx.N(a.Path), hx.Str(string(a.Value))))
+		}
+		var got []string
+		if i < len(obs.More) {
+			got = obs.More[i]
+		}
+		more = append(more, hx.Tuple(hx.List(as), coqStrs(got)))
+	}
 	written := "None"
 	if obs.Written != nil {
 		written = "(Some " + hx.Str(*obs.Written) + ")"
 	}
-	return fmt.Sprintf("{| cid := %s; ckws := %s; cadds := %s; cdflt := %s; cobs := %s; cglob := %s; ctadds := %s; ctdflt := %s; ctobs := %s; cwritten := %s |}",
-		hx.N(id), coqStrs(strs(in.Keywords)), hx.List(adds), dflt, coqStrs(obs.Custom), glob, hx.List(tadds), tdflt, coqStrs(obs.TCP), written)
+	return fmt.Sprintf("{| cid := %s; ckws := %s; cadds := %s; cdflt := %s; cobs := %s; cglob := %s; ctadds := %s; ctdflt := %s; ctobs := %s; cwritten := %s; cmore := %s |}",
+		hx.N(id), coqStrs(strs(in.Keywords)), hx.List(adds), dflt, coqStrs(obs.Custom), glob, hx.List(tadds), tdflt, coqStrs(obs.TCP), written, hx.List(more))
 }
 
 // ---------------------------------------------------------------- main
